@@ -618,6 +618,70 @@ ENTROPY_CALLS = {"hash", "id", "time.time", "time.time_ns", "time.monotonic", "t
                  "os.getenv", "getpass.getuser", "socket.gethostname", "platform.node", "object.__hash__", "open", "input"}
 
 
+def rule_union_order_stable(ctx: Ctx, rid="C01.UNION-ORDER-STABLE"):
+    """typing caches subscripted forms process-wide and compares Unions as sets: `Optional[Union[A, B]]` (any Union nested in another
+    subscription) is looked up with the inner Union as the key, so a host that evaluated `Optional[Union[B, A]]` earlier hands its alias
+    - with ITS member order - to this library.  pydantic v1 coerces left to right, so for members that coerce into one another
+    (int / float / str / bool and their constrained forms) the parsed value then depends on what the process imported before."""
+    tm = ctx.mod("data_structures/syntax_tree.py")
+    aliases = {}
+    for st in tm.tree.body:
+        if isinstance(st, ast.Assign) and len(st.targets) == 1 and isinstance(st.targets[0], ast.Name) and isinstance(st.value, ast.Subscript):
+            aliases[st.targets[0].id] = st.value
+    SCALAR = ("int", "float", "str", "bool", "NonNegativeInt", "NonNegativeFloat", "PositiveInt", "PositiveFloat", "conint", "confloat",
+              "constr", "StrictInt", "StrictFloat", "StrictStr", "Decimal")
+
+    def is_union(e):
+        return isinstance(e, ast.Subscript) and (dotted(e.value) or "").split(".")[-1] in ("Union", "Optional")
+
+    def members(e, depth=0):
+        if depth > 6:
+            return []
+        if isinstance(e, ast.Name) and e.id in aliases:
+            return members(aliases[e.id], depth + 1)
+        if is_union(e):
+            sl = e.slice
+            out = []
+            for x in (sl.elts if isinstance(sl, ast.Tuple) else [sl]):
+                out += members(x, depth + 1)
+            return out
+        return [(dotted(e.func) if isinstance(e, ast.Call) else dotted(e)) or norm(e)]
+
+    def nested_unions(e):
+        """inner Union expressions (after alias expansion) that are arguments of an enclosing Union/Optional"""
+        if not is_union(e):
+            return
+        sl = e.slice
+        for x in (sl.elts if isinstance(sl, ast.Tuple) else [sl]):
+            y = aliases.get(x.id) if isinstance(x, ast.Name) else x
+            if y is not None and is_union(y):
+                yield x, y
+                yield from nested_unions(y)
+    n = 0
+    for cn, c in tm.classes().items():
+        for st in c.body:
+            if not (isinstance(st, ast.AnnAssign) and isinstance(st.target, ast.Name)):
+                continue
+            n += 1
+            bad = None
+            for spelled, inner in nested_unions(st.annotation if not (isinstance(st.annotation, ast.Name) and st.annotation.id in aliases)
+                                                else aliases[st.annotation.id]):
+                ms = [m_.split(".")[-1] for m_ in members(inner)]
+                sc = [m_ for m_ in ms if m_ in SCALAR]
+                if len(set(sc)) >= 2:
+                    bad = (spelled, sc)
+                    break
+            con = f"data_structures/syntax_tree.py:{cn}.{st.target.id}"
+            if bad:
+                ctx.rep.bad(rid, con, f"`{norm(st.annotation)[:80]}` nests the Union `{norm(bad[0])[:60]}` whose members {bad[1]} coerce into one "
+                            "another: typing looks the outer form up in a process-wide cache keyed by the inner Union compared as a set, so "
+                            "the member order - and with it what pydantic makes of a literal - depends on which equal Union the process "
+                            "created first", site=tm.site(st), text=norm(st)[:120])
+            else:
+                ctx.rep.ok(rid, con, "no Union of mutually coercible members nested inside another subscription", site=tm.site(st), nontrivial=False)
+    ctx.rep.floor("model field annotations", n, 10)
+
+
 def rule_no_entropy(ctx: Ctx, rid="C01.NO-ENTROPY"):
     """No process-local entropy or ambient source is read anywhere in the package outside the
     vendored sly runtime (the one guarded random.choices call is decided by RANDOM-GUARDED)."""
@@ -1082,10 +1146,24 @@ def rule_no_process_globals(ctx: Ctx, rid="C17.NO-PROCESS-GLOBALS"):
     for m in ctx.src.own_modules():
         for fn in [x for x in ast.walk(m.tree) if isinstance(x, (ast.FunctionDef, ast.AsyncFunctionDef))]:
             n += 1
+
+            def _getattr_name(e):
+                # getattr(module, "name"[, default]) spelled with a constant name is module.name
+                if isinstance(e, ast.Call) and dotted(e.func) == "getattr" and len(e.args) >= 2 and isinstance(e.args[1], ast.Constant) \
+                        and isinstance(e.args[1].value, str) and dotted(e.args[0]):
+                    return f"{dotted(e.args[0])}.{e.args[1].value}"
+                return dotted(e) if isinstance(e, (ast.Attribute, ast.Name)) else None
+            local_alias = {}
+            for a_ in walk_no_nested(fn):
+                if isinstance(a_, ast.Assign) and len(a_.targets) == 1 and isinstance(a_.targets[0], ast.Name):
+                    tgt = _getattr_name(a_.value)
+                    if tgt and "." in tgt:
+                        local_alias[a_.targets[0].id] = tgt
             for c in walk_no_nested(fn):
                 full = None
-                if isinstance(c, ast.Call) and dotted(c.func):
-                    d = dotted(c.func)
+                if isinstance(c, ast.Call) and (dotted(c.func) or _getattr_name(c.func)):
+                    d = dotted(c.func) or _getattr_name(c.func)
+                    d = local_alias.get(d, d)
                     head = d.split(".")[0]
                     full = d
                     if head in m.imports:
@@ -1392,6 +1470,34 @@ def rule_sly_runtime_instance_only(ctx: Ctx, rid="C17.SLY-RUNTIME-INSTANCE-ONLY"
                         callee = dotted(x.func).split(".")[1]
                         if m.get_method(c, callee, required=False) is not None:
                             todo.append(callee)
+                # a class-level attribute that holds a list / dict / set is one object for all instances until an instance rebinds it:
+                # `self.x += [...]`, `self.x.append(...)`, `del self.x[:]`, `self.x[i] = ...` change that one object
+                cl_mut = {}
+                for st0 in c.body:
+                    if isinstance(st0, (ast.Assign, ast.AnnAssign)) and getattr(st0, "value", None) is not None:
+                        v0 = st0.value
+                        if isinstance(v0, (ast.List, ast.Dict, ast.Set, ast.ListComp, ast.DictComp, ast.SetComp)) or (
+                                isinstance(v0, ast.Call) and dotted(v0.func) in ("list", "dict", "set", "collections.deque", "deque", "defaultdict",
+                                                                                 "collections.defaultdict", "OrderedDict", "collections.OrderedDict")):
+                            for t0 in (st0.targets if isinstance(st0, ast.Assign) else [st0.target]):
+                                if isinstance(t0, ast.Name):
+                                    cl_mut[t0.id] = st0
+                rebound = {t_.attr for f_ in c.body if isinstance(f_, ast.FunctionDef) for a_ in ast.walk(f_) if isinstance(a_, ast.Assign)
+                           for t_ in a_.targets if isinstance(t_, ast.Attribute) and dotted(t_.value) == (f_.args.args[0].arg if f_.args.args else "self")}
+                for x in ast.walk(fn):
+                    hit = None
+                    if isinstance(x, ast.AugAssign) and isinstance(x.target, ast.Attribute) and dotted(x.target.value) == self_name:
+                        hit = x.target.attr
+                    elif isinstance(x, ast.Call) and isinstance(x.func, ast.Attribute) and x.func.attr in flow.MUTATORS and \
+                            isinstance(x.func.value, ast.Attribute) and dotted(x.func.value.value) == self_name:
+                        hit = x.func.value.attr
+                    elif isinstance(x, (ast.Assign, ast.Delete)):
+                        for t_ in x.targets:
+                            if isinstance(t_, ast.Subscript) and isinstance(t_.value, ast.Attribute) and dotted(t_.value.value) == self_name:
+                                hit = t_.value.attr
+                    if hit in cl_mut and hit not in rebound:
+                        probs.append((x, f"`{norm(x)[:60]}` changes in place the {type(cl_mut[hit].value).__name__.lower()} that the class body binds to "
+                                         f"{hit}: until an instance rebinds the attribute it is one object shared by every instance"))
                 # objects reached through the class-level tables (productions, LR items, rule lists) are shared by every parser and
                 # lexer instance: a run-time store into one of them is a store into shared state, whatever local name it goes through
                 shared = ("_rules", "_grammar", "_lrtable", "_token_funcs", "_remapping", "_master_re", "_ignored_tokens", "_prec")
@@ -1690,8 +1796,10 @@ def rule_instance_only(ctx: Ctx, rid="C11.INSTANCE-ONLY"):
         if isinstance(st, (ast.Assign, ast.AnnAssign)) and getattr(st, "value", None) is not None:
             n += 1
             v = st.value
-            imm = isinstance(v, ast.Constant) or (isinstance(v, ast.Tuple) and all(isinstance(e, ast.Constant) for e in v.elts)) \
-                or (isinstance(v, ast.UnaryOp) and isinstance(v.operand, ast.Constant))
+            def _const(e):
+                return isinstance(e, ast.Constant) or (isinstance(e, ast.UnaryOp) and isinstance(e.operand, ast.Constant)) or (
+                    isinstance(e, ast.Tuple) and all(_const(x) for x in e.elts))
+            imm = _const(v)
             why = "class-level default is an immutable constant"
             if not imm and isinstance(v, ast.Call) and (dotted(v.func) or "").split(".")[-1] in (
                     "MappingProxyType", "frozenset", "tuple", "compile", "getLogger", "TypeVar", "namedtuple"):
@@ -1779,6 +1887,27 @@ def _wraps_in_cache(ctx: Ctx, m, e, depth=0):
                         if dd in CACHE_DECORATORS or (dd or "").split(".")[-1] in ("lru_cache", "cache"):
                             return f"{d} -> {dd}"
     return None
+
+
+def rule_copy_protocol(ctx: Ctx, rid="C11.COPY-IS-CURRENT"):
+    """When the evaluator class defines its own copy / pickle protocol, a copy taken after a recompile must serve the text the original
+    serves at that moment (default copying duplicates the instance dictionary and needs no check)."""
+    from . import liferules as LF
+    life = LF.lifecycle(ctx)
+    m, c = _evaluator(ctx)
+    if life["undecided"]:
+        proto = [f_.name for f_ in c.body if isinstance(f_, ast.FunctionDef) and f_.name.startswith("__") and f_.name in (
+            "__reduce__", "__reduce_ex__", "__copy__", "__deepcopy__", "__getstate__", "__setstate__", "__getnewargs__", "__getnewargs_ex__")]
+        if proto:
+            raise AnalysisError(f"the evaluator defines a copy/pickle protocol ({', '.join(proto)}) and its lifecycle could not be interpreted")
+        return
+    proto = life["facts"].get("copy_protocol", [])
+    if not proto:
+        ctx.rep.ok(rid, f"{EV}:ExperimentEvaluator", "no copy/pickle protocol of its own: copies duplicate the instance state", nontrivial=False)
+        return
+    if life["facts"].get("copy_protocol_undecided"):
+        raise AnalysisError(f"the evaluator's copy/pickle protocol cannot be followed: {life['facts']['copy_protocol_undecided']}")
+    LF.decide(ctx, rid, ("copied",), ok_text=f"a copy made through {', '.join(proto)} after a recompile serves the last accepted text")
 
 
 def rule_installed_function(ctx: Ctx, rid="C11.INSTALLED-FUNCTION", strict=True, facets=("exec-sites", "namespace", "installed")):
